@@ -7,6 +7,7 @@ when present (checks/c04_pipeline.py).
 import importlib
 
 import c04_api
+import x04dp
 import x04pf
 
 
@@ -17,6 +18,9 @@ def run(ctx, replay):
                        "runs validated by Trace_Lease with the property predicates evaluated on observed values")
     if replay and c04_api.run_replay(ctx, replay):
         return
+    x04dp.ONLY = "C04"
+    if replay and x04dp.run_replay(ctx, replay):
+        return
     c04_api.run_api(ctx)
     # background refresh: claim, queue, worker, completion CAS, Stop (Prefetch.tla), gated on the real cache
     import os
@@ -25,6 +29,8 @@ def run(ctx, replay):
     if os.path.exists(ov):
         os.remove(ov)
     x04pf.run_tier(ctx)
+    # the aggressive denial-proof cache: multi-admission histories of one signer zone on the real pipeline (DenialProof.tla)
+    x04dp.run_tier(ctx)
     try:
         pipe = importlib.import_module("c04_pipeline")
     except ImportError:
